@@ -112,6 +112,8 @@ def run(chk, prog, tier):
     c02.check_order(chk, prog, env)
     c02.check_setkey(chk, prog, env)
     c02.check_names(chk, prog, env)
+    # a signer that refuses (wrong key kind / size) must say so: returning 0 without a signature makes jwt_encode emit 'h.p.'
+    c02.check_gate(chk, prog, env, rulename='C03.signer-refuses')
     return chk.finish(
         'Decision table of the verification policy restricted to unsigned token shapes (empty signature or header alg none), '
         'path enumeration of jwt_encode (unsigned form only for alg none), and the builder rules shared with C02 '
